@@ -217,7 +217,34 @@ CHECKS["C04"] = dict(
     technique="Coq proof (determinacy and transparency by induction over call trees/histories) + cold/warm differential runs",
     design="5/C04")
 
-READY = ["C01", "C02", "C03", "C04", "C05", "C06", "C08", "C09", "C10", "C11", "C12", "C13", "C14", "C15", "C17", "C18", "C19", "C20"]
+CHECKS["C07"] = dict(
+    text="Coq model of the package-step driver with downloads: dissect of the persisted input state, the download-mode table "
+         "(translated from __setDownloadMode), _downloadPackage (prune on changed build-id, retry rule, audit presence and "
+         "content-hash verification), the download-tried flag, live build-id prediction with restart, over an abstract archive. "
+         "Unbounded theorems (mutual induction over the package tree): download_equals_local for every download configuration "
+         "under an honest archive, other_workspace_zero_builds, wrong predictions restart at most n_srcs+1 times and converge, "
+         "mismatch/no-audit never accepted; the Build-Id side imports Ids/: equal Build-Ids => equal platform/script/tools/vars/"
+         "argument ids or an explicit collision (weak-tool name ambiguity stated). Tie: two real workspaces at different paths "
+         "sharing a file archive, all download modes, tampering, emulated host fingerprints; decisions, state kinds and dist "
+         "trees compared with the model and with a local clean build.",
+    note="'equal Build-Id => equal result' (honest archive) is a hypothesis by construction of the property; shared packages, "
+         "layers, -j>1 and git live ids are not modelled (moved branches are emulated by wrong .buildid files)",
+    technique="Coq proof (induction over package trees and restart passes) + two-workspace differential experiments",
+    design="5/C07")
+CHECKS["C16"] = dict(
+    text="Coq model of the develop directory oracle (visit order, first-key-wins, keep rule, numbering) iterated over histories "
+         "of project states, of release-mode by-name allocation, of the prune decision for reused build/package directories and "
+         "of bob clean (collectPaths, delete set, -s/--force/--dry-run). Unbounded theorems: develop directories are injective "
+         "on (recipe, Variant-Id) after every refresh and stable for keys that stay; release directories injective and stable "
+         "over all call sequences; a directory handed to another variant is emptied before use; clean deletes only unused "
+         "paths, keeps every up-to-date result, --dry-run changes nothing, sources only with -s and expendable. Tie: the real "
+         "DevelopDirOracle (sqlite kept), BobState, doClean and _preparePackageStep driven in-process, plus real bob "
+         "dev/build/clean runs on generated projects.",
+    note="hypothesis hist_sep (no two base dirs differ only by a trailing slash) is counted on every generated state",
+    technique="Coq proof (history invariants, delete-set algebra) + differential runs on the real classes and CLI",
+    design="5/C16")
+
+READY = ["C01", "C02", "C03", "C04", "C05", "C06", "C07", "C08", "C09", "C10", "C11", "C12", "C13", "C14", "C15", "C16", "C17", "C18", "C19", "C20"]
 
 NOT_YET = {}
 
